@@ -36,6 +36,15 @@ THEMES = {
           "first-element / middle / last-element cases) are merged into one, or a special case is 'generalised' / a helper is reused "
           "where hand-written code stood - and a small asymmetry that one of the paths needed gets lost. Everything the paths had in "
           "common stays right; only the inputs that needed the lost asymmetry go wrong."),
+    '10': ("The change must be wrong only for unusual but legal SOURCE TEXT and stay exactly right for ordinary black-style ASCII layout. "
+           "Pick the layout feature from this list (or a similar one) and make the bug depend on it: tab or form-feed indentation; backslash "
+           "line continuations (also inside the construct that is edited); semicolon-joined statements; comments in unusual places "
+           "(between a decorator and its def, right after an opening bracket, between `elif` / `else` sections, after a backslash-free "
+           "operator at a line end); a last line without newline, or lines with trailing whitespace; several blank lines or whitespace-only "
+           "lines inside blocks; multi-byte identifiers / string contents before the edit position on the same line; nested f-strings "
+           "re-using the quote character (3.12), f-string format specs, self-documenting `{x = }` fields; empty constructs (`()`, `{}`, "
+           "`class C(): pass`, `def f(): ...`, `lambda: 0`); parenthesized targets / with-items / return values / decorators; code that "
+           "is indented with 1, 2 or 8 columns instead of 4."),
 }
 
 
